@@ -100,7 +100,10 @@ def grammar_exprs(rnd, quick):
     for (h, mi) in ((9, 0), (15, 30), (0, 0), (23, 45), (12, 15)):
         out += [t for lab, t, C in G.clock_forms(h, mi) if lab != "clock:h in the POD"][::2 if quick else 1]
     out += ["tomorrow 8pm", "5.3.2021 9:00 - 10:30", "monday 9-5", "9:00-17:00", "23:30-3:35", "3 days", "two weeks", "half an hour",
-            "5.3.2021 for 3 days", "before 5.3.2021", "after 17:30", "next friday at noon", "tomorrow morning", "31.12. 23:59"]
+            "5.3.2021 for 3 days", "before 5.3.2021", "after 17:30", "next friday at noon", "tomorrow morning", "31.12. 23:59",
+            # expressions that START with an absorbed word (the span must include it, also after latent anchoring)
+            "between 9:30 and 11:00", "from 8:00 to 9:00", "von 8:00 bis 9:00", "zwischen 8:00 und 10:00", "at 8pm", "um 8:30", "on monday",
+            "am 5.3.2021", "from 8 to 9 pm", "gegen 17 uhr", "about 9:15", "vom 1.3.2021 bis 5.3.2021"]
     pods = [f for fs in G.LEX["pod"].values() for f in fs[:2]]
     out += pods[:6 if quick else len(pods)]
     seen, res = set(), []
